@@ -65,5 +65,12 @@ func IngressPods(ctx context.Context, srcbase ingress.Controller, svcbase servic
 		svcs.Close()
 		return nil, err
 	}
+
+	// the intermediate join lives exactly as long as the result
+	go func() {
+		<-pods.Done()
+		svcs.Close()
+	}()
+
 	return pods, nil
 }
